@@ -226,6 +226,10 @@ func runJob(j Job, emit func(Line)) {
 		runManager(j.Ops, emit)
 		return
 	}
+	if j.Kind == "stress" || (j.Kind == "script" && len(j.Ops) > 0 && j.Ops[0].K == "stress") {
+		runStress(j.Ops, emit)
+		return
+	}
 	c := newCtl()
 	defer func() {
 		wedged := c.finish()
@@ -410,6 +414,8 @@ func evTerm(e Ev) string {
 		return "XBreak " + vh.Nat(e.I)
 	case "mgr":
 		return "XManager " + vh.Nat(e.I)
+	case "stress":
+		return "XStress " + vh.Nat(e.I)
 	}
 	panic("evTerm " + e.K)
 }
@@ -680,10 +686,24 @@ func main() {
 	meta.Extra["exhaustive_depth"] = depth
 	meta.Extra["exhaustive_scripts"] = n
 
+	// stress family: free-running Connection()/done() cycles on one or two addresses
+	nst := 4
+	if o.Thorough() {
+		nst = 24
+	}
+	for i := 0; i < nst; i++ {
+		ev := Ev{K: "stress", I: 3 + i%2, A: 1 + (i/2)%2, EK: 12, ND: i%2 == 1}
+		if o.Thorough() {
+			ev.EK = 40
+		}
+		po, pb, _ := r.run(Job{Kind: "stress", Ops: []Ev{ev}})
+		e.add("stress", po, pb)
+	}
+
 	// manager family: Add / Reconnect* / Remove cycles of a real manager.Manager
 	// over the real connection.Manager, targets with 1..3 distinct next hops
 	mrng := vh.NewRand(vh.NewRand(o.Seed ^ 0xa11).U64())
-	nmgr := 6
+	nmgr := 8
 	if o.Thorough() {
 		nmgr = 40
 	}
@@ -695,7 +715,15 @@ func main() {
 			if i < 3 {
 				hops = i + 1 // each number of next hops at least once
 			}
-			ops = append(ops, Ev{K: "mgr", I: hops, A: f.Intn(2) * f.Intn(hops+1), EK: f.Intn(3), ND: f.Chance(1, 3)})
+			ev := Ev{K: "mgr", I: hops, A: f.Intn(2) * f.Intn(hops+1), EK: f.Intn(3), ND: f.Chance(1, 3)}
+			// faults at each preparation step of a monitor attempt
+			if f.Chance(1, 2) || i == 1 {
+				ev.CF = 1 + f.Intn(3)
+			}
+			if f.Chance(1, 3) || i == 2 {
+				ev.SF = 1 + f.Intn(2)
+			}
+			ops = append(ops, ev)
 		}
 		po, pb, _ := r.run(Job{Kind: "mgr", Ops: ops})
 		e.add("manager", po, pb)
